@@ -26,16 +26,32 @@ def shapes(tier, seed):
     for (start, stop, step) in [(-3, 4, 2), (4, -3, -2), (0, 5, 1), (2, 11, 3), (-7, -1, 3)]:
         out.append({"kind": "range", "ast": ("inrange", ("add", ("ref", "a"), ("ref", "b")), start, stop, step)})
         out.append({"kind": "range", "ast": ("not", ("inrange", ("sub", ("ref", "a"), ("lit", "$k")), start, stop, step))})
+    # membership in sequences of integer literals: every tuple of length 0..3 (4 when thorough) over a small box, plus mixed ones
+    import itertools
+    box = (-1, 0, 1, 2, 3) if tier == "quick" else (-2, -1, 0, 1, 2, 3, 5)
+    for n in range(0, 4 if tier == "quick" else 5):
+        for tup in itertools.product(box, repeat=n):
+            if n == 4 and len(set(tup)) == 4 and list(tup) != sorted(tup):
+                continue
+            out.append({"kind": "litseq", "ast": ("inseq", ("ref", "a"), tuple(("lit", v) for v in tup))})
+    for tup in [(0, 2, "$k"), ("$k", "$k"), (1, 2, ("ref", "b")), (3, 1, 2, 0), (0, 1, 1, 3), (4, 4, 2, 3)]:
+        items = tuple(t if isinstance(t, tuple) else ("lit", t) for t in tup)
+        out.append({"kind": "litseq", "ast": ("inseq", ("add", ("ref", "a"), ("ref", "c")), items)})
+        out.append({"kind": "litseq", "ast": ("not", ("inseq", ("ref", "a"), items))})
     return out
 
 
-def _sql_side(env, obj, is_pred):
+def _sql_side(env, obj, is_pred, ast=None):
     import sqlalchemy as sa
 
     md = sa.MetaData()
     tbl = sa.Table("T", md, *[sa.Column(c, sa.Integer) for c in COLS])
     ca = {env.tags[c]: tbl.c[c] for c in COLS}
     sq = env.engines["sq"]
+    if ast is not None:
+        # the SQL side sees literals exactly as a caller supplies them (plain ints; only $k/$m stay symbolic):
+        # the symbolic wrapper around constants exists for the iteration engine's set lookups only (DESIGN 2.2)
+        obj = exprsem.lib_of_ast(ast, env.tags, lambda v: env.bind[v] if isinstance(v, str) else v)
     el = sq.convert_predicate(obj, ca) if is_pred else sq.convert_column_expression(obj, ca)
     return tbl, el
 
@@ -67,7 +83,7 @@ def run_shape(shape, tier):
         except Exception as e:  # noqa: BLE001
             obs.append(("iteration callable evaluates", False, {"exc": f"{type(e).__name__}: {e}"[:150]}))
         try:
-            tbl, el = _sql_side(env, obj, is_pred)
+            tbl, el = _sql_side(env, obj, is_pred, ast)
             sc = sqlmodel.Scope()
             for c in COLS:
                 sc.m[(id(tbl), c)] = zrow[c]
@@ -76,7 +92,8 @@ def run_shape(shape, tier):
                         {"sql": str(el)}))
             if is_pred:
                 from ..relmodel import zand
-                terms = env.engines["sq"].convert_flattened_predicate(obj, {env.tags[c]: tbl.c[c] for c in COLS})
+                obj_sql = exprsem.lib_of_ast(ast, env.tags, lambda v: env.bind[v] if isinstance(v, str) else v)
+                terms = env.engines["sq"].convert_flattened_predicate(obj_sql, {env.tags[c]: tbl.c[c] for c in COLS})
                 conj = zand(sqlmodel.as_bool(sqlmodel.expr(t, sc)) for t in terms)
                 obs.append(("SQL WHERE terms (convert_flattened_predicate) == meaning", conj == truth, {"terms": [str(t) for t in terms]}))
         except sqlmodel.OutsideModel as e:
